@@ -48,6 +48,10 @@ type vpEnvOpt struct {
 	grind    bool  // give every honest header a nonce that passes the proof-of-work predicate
 	// bitsFor gives the difficulty bits of the honest header on top of chain (nil: vpPowLimitBits)
 	bitsFor func(chain []wire.BlockHeader) uint32
+	// genesisFilter: the filter header of the genesis block (nil: the constant 0x0f00..)
+	genesisFilter *chainhash.Hash
+	// filterFor gives the committed filter header of height h on top of prev (nil: an opaque constant per height)
+	filterFor func(h int, prev chainhash.Hash) chainhash.Hash
 	// prep runs after the honest chain is built and before newBlockManager
 	// (to place checkpoints on chain hashes)
 	prep func(e *vpBMEnv, p *chaincfg.Params)
@@ -99,6 +103,9 @@ func vpNewBMEnvOpt(n, bt, ft int, params chaincfg.Params, opt vpEnvOpt) *vpBMEnv
 	}
 	e.chain = []wire.BlockHeader{g}
 	e.filters = []chainhash.Hash{{0x0f}}
+	if opt.genesisFilter != nil {
+		e.filters[0] = *opt.genesisFilter
+	}
 	for h := 1; h <= n; h++ {
 		nh := vpHonestHeader(&e.chain[h-1], h, uint32(h))
 		if opt.bitsFor != nil {
@@ -110,6 +117,9 @@ func vpNewBMEnvOpt(n, bt, ft int, params chaincfg.Params, opt vpEnvOpt) *vpBMEnv
 		e.chain = append(e.chain, nh)
 		var f chainhash.Hash
 		f[0], f[1] = 0xf0, byte(h)
+		if opt.filterFor != nil {
+			f = opt.filterFor(h, e.filters[h-1])
+		}
 		e.filters = append(e.filters, f)
 	}
 	gh := g.BlockHash()
